@@ -261,6 +261,7 @@ pub fn main() -> Result<()> {
                     cores: prover_cores,
                 };
 
+                let submitted = problems.len();
                 let problems = problems.into_iter().inspect(|problem| {
                     println!("> Proving {}...", problem.name);
                     println!("Axioms:");
@@ -276,7 +277,9 @@ pub fn main() -> Result<()> {
                 });
 
                 let mut success = true;
+                let mut received = 0;
                 for result in prover.prove_all(problems) {
+                    received += 1;
                     match result {
                         Ok(report) => match report.status() {
                             Ok(status) => {
@@ -313,6 +316,15 @@ pub fn main() -> Result<()> {
                         }
                     }
                     println!();
+                }
+
+                if received != submitted {
+                    // a prover instance died without reporting back
+                    println!(
+                        "> Proving ended with {received} results for {submitted} problems"
+                    );
+                    println!();
+                    success = false;
                 }
 
                 if success {
